@@ -74,17 +74,6 @@ Fixpoint flip_at (k : nat) (bit : N) (l : list N) {struct l} : list N :=
 Definition flip (i : N) (l : list N) : list N :=
   flip_at (N.to_nat (i / 8)) (i mod 8) l.
 
-(** Replace the byte at position [k] by [y]. *)
-Fixpoint set_at (k : nat) (y : N) (l : list N) {struct l} : list N :=
-  match l with
-  | [] => []
-  | x :: t =>
-      match k with
-      | O => y :: t
-      | S k' => x :: set_at k' y t
-      end
-  end.
-
 (** ** Typed messages
 
     rkyv's serializer and the archived view of a type are not modelled: a [codec] is
